@@ -310,7 +310,14 @@ def m_bytes(I_, args, kws, st, ctx, k, node):
       return I_.raise_exc(st, ctx, ValueError, "negative count", node)
     return k(st, bytes(v))
   if is_symint(v):
-    raise Unsupported("bytes(n) with symbolic n")
+    where = I_.where(ctx, node)
+    def okn(st2):
+      blob = sb.new_blob("zeros", v)
+      f = blob.chunks[0][1]
+      i = fresh_int("zi")
+      st2.add(z3.ForAll([i], f(i) == 0))
+      return k(st2, blob)
+    return I_.safety(st, v >= 0, "safe.bytesn@" + where, ExcVal(ValueError, ("negative count",), where), ctx, okn)
   # iterable of ints
   def got_items(st2, items):
     chunks = []
